@@ -2075,3 +2075,63 @@ func tableIndexedBy(v ssa.Value) (glob *ssa.Global, idx ssa.Value, path string) 
 	}
 	return nil, nil, ""
 }
+
+// dependsOnValue: some value in the operand closure of v (through arithmetic, conversions, phis, loads of local
+// struct fields) satisfies pred.
+func dependsOnValue(v ssa.Value, pred func(ssa.Value) bool) bool {
+	seen := map[ssa.Value]bool{}
+	var walk func(x ssa.Value, d int) bool
+	walk = func(x ssa.Value, d int) bool {
+		if x == nil || seen[x] || d > 24 {
+			return false
+		}
+		seen[x] = true
+		if pred(x) {
+			return true
+		}
+		if r := resolve(x); r != x && walk(r, d+1) {
+			return true
+		}
+		ins, ok := x.(ssa.Instruction)
+		if !ok {
+			return false
+		}
+		if _, isCall := x.(*ssa.Call); isCall {
+			return false // the result of another call is a new origin
+		}
+		for _, op := range ins.Operands(nil) {
+			if op != nil && *op != nil && walk(*op, d+1) {
+				return true
+			}
+		}
+		return false
+	}
+	return walk(v, 0)
+}
+
+// mustPrecede: on every CFG path from the function entry to target an instruction satisfying hit is executed first.
+func mustPrecede(target ssa.Instruction, hit func(ssa.Instruction) bool) bool {
+	seen := map[*ssa.BasicBlock]bool{}
+	var back func(b *ssa.BasicBlock, upto int) bool
+	back = func(b *ssa.BasicBlock, upto int) bool {
+		for i := upto - 1; i >= 0; i-- {
+			if hit(b.Instrs[i]) {
+				return true
+			}
+		}
+		if len(b.Preds) == 0 {
+			return false // reached the entry (or a recover block) without passing one
+		}
+		for _, p := range b.Preds {
+			if seen[p] {
+				continue
+			}
+			seen[p] = true
+			if !back(p, len(p.Instrs)) {
+				return false
+			}
+		}
+		return true
+	}
+	return back(target.Block(), instrIndex(target))
+}
